@@ -1,7 +1,8 @@
-\* real bytes (base 256): shuffle of 0..3 elements, sample(n <= 3, k <= n); every tape of up to 2 bytes (65536)
+\* real bytes (base 256): shuffle of 0..3 elements, sample(n <= 3, k <= n); tapes of 1 byte explored, every tape of up to 2 bytes counted (65536 per case)
 CONSTANTS BW = 8
 MaxN = 3
-MaxLen = 2
+MaxLen = 1
+FibreLen = 2
 INIT Init
 NEXT Next
 CHECK_DEADLOCK FALSE
